@@ -61,6 +61,8 @@ ASSUMPTIONS = [
     "a refusal must be reported as a failure only for a request whose top-level node is the tool call, on the auto or the tool pathway",
     "that allowed tools do run is a coverage probe, not an assertion",
     "tool names never collide with the engine's built-in math functions",
+    "a function object that is registered repeatedly under one name (same name, same description, other capabilities) is "
+    "judged against the requirement set of the latest registration under that name",
     "threads family: pre-emption granularity is the source line; only the least-privilege clause is judged (whether a "
     "request that raced with a re-registration had to be refused has no interleaving-independent answer); a call that "
     "raises because the registry changed under it is not this property's business",
@@ -70,7 +72,7 @@ EXPECT_PROBES = ("forbidden_requested_metabolize", "forbidden_requested_call", "
                  "ros_latched", "unknown_tool_requested", "caps_attr_tool_requested", "list_declared_tool_requested",
                  "partial_overlap_requested", "llm_forever", "threads_run", "registered_while_request_in_flight",
                  "threads_forbidden_body_refused_after_swap", "two_engines_one_nucleus", "nucleus_switched_engine",
-                 "nucleus_switched_to_stricter_engine")
+                 "nucleus_switched_to_stricter_engine", "same_callable_reregistered", "same_callable_flip_requested")
 
 CAPS = ["read_fs", "write_fs", "net", "exec_code", "money", "email_send", "gpu"]   # "gpu": a foreign (string) tag
 _ENUM = {c.value: c for c in Capability}
@@ -119,7 +121,13 @@ def _req_for(rng, allowed, want_forbidden):
     return sorted(CAPS)
 
 
-def _reg(rng, name, allowed, want_forbidden):
+def _reg(rng, name, allowed, want_forbidden, same_callable=False):
+    if same_callable:
+        # every registration of this name wraps the *same function object* (same name, same description): only the
+        # declared capabilities differ from one registration to the next
+        via = rng.choice(["function", "simple"])
+        return ["reg", name, _req_for(rng, allowed, want_forbidden), "required_capabilities",
+                weighted(rng, [(4, "set"), (2, "frozenset"), (3, "list"), (1.5, "tuple")]), via, False, True]
     via = weighted(rng, [(3, "function"), (3, "simple"), (4, "custom")])
     attr = "required_capabilities" if via != "custom" else weighted(
         rng, [(4, "required_capabilities"), (4, "capabilities"), (2, "both")])
@@ -189,9 +197,10 @@ def gen(rng, tier, i):
         return a is not None and not set(req) <= set(a)
 
     names = NAMES[: rng.choice([2, 3, 3, 4])]
+    same_callable = {n for n in names if rng.random() < 0.3}
     pre = []
     for n in rng.sample(names, rng.randint(1, min(3, len(names)))):
-        r = _reg(rng, n, g_allowed, rng.random() < 0.6)
+        r = _reg(rng, n, g_allowed, rng.random() < (0.3 if n in same_callable else 0.6), n in same_callable)
         g_tools[n] = forb(r[2], g_allowed)
         pre.append(r[1:])
     depth = rng.randint(3, 10 if tier == "quick" else 14)
@@ -252,7 +261,7 @@ def gen(rng, tier, i):
             else:
                 n = rng.choice(names)
                 want = rng.random() < 0.6
-            r = _reg(rng, n, g_allowed, want)
+            r = _reg(rng, n, g_allowed, want, n in same_callable)
             g_tools[n] = forb(r[2], g_allowed)
             ops.append(r)
         elif o == "allow":
@@ -318,9 +327,9 @@ def simplify(plan):
             for c in range(len(r[2])):
                 yield put(path, j, r[:2] + [r[2][:c] + r[2][c + 1:]] + r[3:])
         if r[6]:
-            yield put(path, j, r[:6] + [False])
+            yield put(path, j, r[:6] + [False] + r[7:])
         if r[5] != "function":
-            yield put(path, j, r[:3] + ["required_capabilities", r[4], "function", r[6]])
+            yield put(path, j, r[:3] + ["required_capabilities", r[4], "function"] + r[6:])
         if r[4] != "set":
             yield put(path, j, r[:4] + ["set"] + r[5:])
     for path, lst in _op_lists(plan):
@@ -460,6 +469,7 @@ class _World:
         self.tools = {}         # name -> {"req", "id", "attr", "cont", "flipped"}  (latest registration built)
         self.ran = {}           # registration id -> number of times the body ran
         self.nreg = 0
+        self.shared = {}        # name -> the one function object that every "same callable" registration of it wraps
         self.requested_forbidden = 0
 
     @property
@@ -501,15 +511,46 @@ class _World:
             return f"out:{name}:{ran[rid]}"
         return body
 
+    def make_shared_body(self, name, raises):
+        """One function object registered again and again under `name`: it is judged against the requirement set of the
+        *latest* registration under that name (sequential family only - there is no 'latest' under pre-emption)."""
+        k, ran = self.k, self.ran
+
+        def body(*a, **kw):
+            site = _entry_on_stack()
+            t = self.tools[name]
+            rid, req = t["id"], t["req"]
+            ran[rid] = ran.get(rid, 0) + 1
+            k.ev("tool_body", [name, rid, site])
+            if self.forbidden(req):
+                k.violation("least_privilege", "forbidden_tool_ran", site,
+                            f"tool {name!r} (same callable re-registered; latest declaration requires {_show(req)}), "
+                            f"ceiling {_show(self.a_now)}")
+            else:
+                k.probe("allowed_tool_ran")
+            if raises:
+                k.fault("collab_raise")
+                raise RuntimeError(f"{name} failed")
+            return f"out:{name}:{ran[rid]}"
+        return body
+
     def build(self, spec):
-        name, req_names, attr, cont, via, raises = spec
+        name, req_names, attr, cont, via, raises = spec[:6]
+        same = len(spec) > 6 and bool(spec[6])
         self.nreg += 1
         rid = self.nreg
         req = frozenset(_dec(req_names))
         caps = {"set": set, "frozenset": frozenset, "list": list, "tuple": tuple}[cont](_dec(req_names))
-        body = self.make_body(name, rid, req, raises)
+        if same:
+            body = self.shared.get(name)
+            if body is None:
+                body = self.shared[name] = self.make_shared_body(name, raises)
+            else:
+                self.k.probe("same_callable_reregistered")
+        else:
+            body = self.make_body(name, rid, req, raises)
         old = self.tools.get(name)
-        self.tools[name] = {"req": req, "id": rid, "attr": attr, "cont": cont,
+        self.tools[name] = {"req": req, "id": rid, "attr": attr, "cont": cont, "same": same,
                             "flipped": old is not None and self.forbidden(old["req"]) != self.forbidden(req)}
         return name, body, caps, attr, via
 
@@ -545,6 +586,8 @@ class _World:
         k.probe("forbidden_requested_" + entry)
         if t["flipped"]:
             k.probe("reregistered_flip_requested")
+            if t.get("same"):
+                k.probe("same_callable_flip_requested")
         if self.a_now is not None and len(self.a_now) == 0:
             k.probe("empty_ceiling_request")
         if t["attr"] == "capabilities":
